@@ -2,7 +2,10 @@ package checks
 
 import (
 	"fmt"
+	"go/ast"
 	"go/token"
+	"go/types"
+	"strings"
 
 	"golang.org/x/tools/go/packages"
 
@@ -95,5 +98,54 @@ func checkCategorical(c *core.Ctx, p *packages.Package, d *declIndex) {
 			c.Check(ok, "C14.R7", cons, detail, fd.Pos(),
 				fmt.Sprintf("%s of category %d evaluates to %s for the probabilities (th_0, th_1, th_2); by definition it is %s", m, k, shortTerm(got), want))
 		}
+	}
+}
+
+// checkTraceOfProduct (C14.R8): the densities of the matrix distributions contain tr(A B). The trace of the element-wise
+// product A o B is sum_i a_ii b_ii and drops every off-diagonal contribution; tr(A B) = sum_ij a_ij b_ji needs the matrix
+// product (or the sum over ALL entries of the element-wise product of A with B'). A trace taken of a matrix that was just
+// produced by the element-wise kernel MmulM is therefore reported.
+func checkTraceOfProduct(c *core.Ctx) {
+	c.Rule("C14.R8", "matrix densities: a trace is taken of a matrix product (MdotM), not of an element-wise product (MmulM)", 1)
+	for _, p := range c.LibPkgs() {
+		if !strings.Contains(p.PkgPath, "/statistics/") {
+			continue
+		}
+		info := p.TypesInfo
+		pkg := p
+		core.EachFunc(p, func(_ *ast.File, fd *ast.FuncDecl) {
+			// last writer of each matrix variable in source order
+			last := map[types.Object]string{}
+			ast.Inspect(fd.Body, func(n ast.Node) bool {
+				ce, ok := n.(*ast.CallExpr)
+				if !ok {
+					return true
+				}
+				sel, ok := ce.Fun.(*ast.SelectorExpr)
+				if !ok {
+					return true
+				}
+				if sel.Sel.Name == "Mtrace" && len(ce.Args) == 1 {
+					if id, ok := ast.Unparen(ce.Args[0]).(*ast.Ident); ok {
+						o := info.Uses[id]
+						w := last[o]
+						c.Check(w != "MmulM", "C14.R8", c.FuncName(pkg, fd), "trace of "+id.Name+" is the trace of a matrix product", ce.Pos(),
+							"the trace is taken of "+id.Name+", which was just computed by the element-wise product MmulM: tr(A o B) keeps only the diagonal terms a_ii b_ii, the density needs tr(A B)")
+					}
+					return true
+				}
+				if id, ok := ast.Unparen(sel.X).(*ast.Ident); ok {
+					if o := info.Uses[id]; o != nil {
+						switch {
+						case strings.HasPrefix(sel.Sel.Name, "M") && len(sel.Sel.Name) > 3 && (strings.Contains(sel.Sel.Name, "mul") || strings.Contains(sel.Sel.Name, "dot") || strings.Contains(sel.Sel.Name, "add") || strings.Contains(sel.Sel.Name, "sub") || strings.Contains(sel.Sel.Name, "div")):
+							last[o] = sel.Sel.Name
+						case sel.Sel.Name == "Set":
+							last[o] = "Set"
+						}
+					}
+				}
+				return true
+			})
+		})
 	}
 }
